@@ -3,6 +3,7 @@
    hot_reloading_thread has (first theorem). *)
 From Coq Require Import List Bool Arith.
 From AM Require Import Rust.Ast Gen.HotReloading Ref.Reloader Proofs.Reloader Tie.Answers Gen.Watcher Tie.Watcher.
+From AM Require Import Gen.CacheMap Tie.Maps.
 Import ListNotations.
 
 Theorem C15_code_leaves_the_loop_when_the_cache_is_gone :
@@ -22,6 +23,13 @@ Proof. exact handle_event_frame. Qed.
 Theorem C15_code_senders_learn_about_a_gone_reloader :
   send_multiple_wf EventSender_send_multiple = true /\ send_wf EventSender_send = true.
 Proof. exact senders_learn_about_a_gone_reloader. Qed.
+
+(* dropping a cache shuts its reloader down first: the reloader is the first field of AssetCache, and
+   fields are dropped in declaration order (so a source whose destructor waits to be told that nobody
+   listens any more is told) *)
+Theorem C15_code_reloader_is_dropped_first :
+  fn_body Gen.CacheMap.AssetCache_fields = [EPath ["Option<HotReloader>"%string]; EPath ["AssetMap"%string]; EPath ["S"%string]].
+Proof. exact reloader_is_dropped_first. Qed.
 
 (* idle: both inboxes empty and connected => the thread blocks and consumes nothing *)
 Theorem C15_idle_blocks : forall x p s,
